@@ -313,3 +313,58 @@ def unit_k7_witness():
         finally:
             shutil.rmtree(tmp, ignore_errors=True)
     return NativeUnit("C18.witness.K-7", "replay of recorded finding K-7 (missing .ods file exits 1)", ["C18"], run, kind="bounded")
+
+
+def unit_set_cid_from_path():
+    def setup(ex, st):
+        path = fresh(STR, "cid_path")[0]
+        old = Ref("Cid"); st.heap[old.oid] = {}
+        app = Ref("CutplaceApp"); st.heap[app.oid] = {"cid": old, "cid_path": "old.ods", "_log": Opaque()}
+        st.frames[-1].env.update({"self": app, "cid_path": path})
+        st.ghost.update({"this": app, "path": path, "old": old, "new": None, "rows": None, "read_args": None, "rows_from": None, "failed": None})
+    def m_new_cid(ex, st, info, args, kw):
+        ex.obligations.append(Obligation("the-new-CID-starts-empty-(no-path-given-to-the-constructor)", st.pc, z3.BoolVal(len(args) == 0 and not kw), "post", props=["C18", "C08"]))
+        c = Ref("Cid"); st.heap[c.oid] = {}; st.ghost["new"] = c; yield st, c
+    def m_auto_rows(ex, st, fn, args, kw):
+        st.ghost["rows_from"] = args[0]
+        sb = st.copy(); sb.ghost["failed"] = "rows"; yield from raise_new(ex, sb, "DataFormatError")
+        sc = st.copy(); sc.ghost["failed"] = "os"; yield sc, Raise(ex.new_builtin_exc(sc, "OSError", ["cannot read"]))
+        r = Ref("RowIter"); st.heap[r.oid] = {}; st.ghost["rows"] = r; yield st, r
+    def m_read(ex, st, recv, args, kw):
+        st.ghost["read_args"] = (recv, args[0], args[1])
+        sb = st.copy(); sb.ghost["failed"] = "read"; yield from raise_new(ex, sb, "InterfaceError")
+        yield st, None
+    def c_ok(ex, st):
+        g = st.ghost; o = st.heap[g["this"].oid]
+        ok = (g["new"] is not None and o["cid"] is g["new"] and o["cid_path"] is g["path"] and g["rows_from"] is g["path"]
+              and g["read_args"] is not None and g["read_args"][0] is g["new"] and g["read_args"][1] is g["path"] and g["read_args"][2] is g["rows"])
+        return Sym(BOOL, z3.BoolVal(bool(ok)))
+    def c_unchanged(ex, st):
+        g = st.ghost; o = st.heap[g["this"].oid]
+        return Sym(BOOL, z3.BoolVal(o["cid"] is g["old"] and o["cid_path"] == "old.ods" and g["failed"] is not None))
+    def make(ctx):
+        c = Contract("applications.CutplaceApp.set_cid_from_path", setup,
+                returns=[Clause(c_ok, "the-application's-CID-is-a-fresh-Cid-read-from-the-rows-of-the-given-path", props=["C18", "C08"])],
+                raises={"InterfaceError": [Clause(c_unchanged, "a-rejected-CID-leaves-the-application's-CID-untouched", props=["C18"])],
+                        "DataFormatError": [Clause(c_unchanged, "an-unreadable-CID-leaves-the-application's-CID-untouched", props=["C18"])],
+                        "OSError": [Clause(c_unchanged, "a-missing-CID-file-leaves-the-application's-CID-untouched", props=["C18"])]},
+                expect=["return", "InterfaceError", "DataFormatError", "OSError"], raises_only_props=["C18", "C10"])
+        return {"contract": c, "callees": {"class:Cid": m_new_cid, "rowio.auto_rows": ModelContract(m_auto_rows), "ref:Cid.read": m_read},
+                "assumptions": ["Cid.read and rowio.auto_rows are used through their verified contracts (interface.Cid.read, rowio.auto_rows)"]}
+    return ProofUnit("applications.CutplaceApp.set_cid_from_path", "set_cid_from_path: a fresh Cid read from the rows of the path replaces the application's CID only on success", ["C18", "C08", "C10"], make, None)
+
+
+def unit_app_init():
+    def setup(ex, st):
+        app = Ref("CutplaceApp"); st.heap[app.oid] = {}
+        st.frames[-1].env.update({"self": app}); st.ghost["this"] = app
+    def c_init(ex, st):
+        o = st.heap[st.ghost["this"].oid]
+        ok = (o.get("cid", 0) is None and o.get("cid_path", 0) is None and o.get("data_paths", 0) is None and o.get("validate_until", 0) is None
+              and o.get("is_gui") is False and o.get("is_create_sql") is False and o.get("all_validations_were_ok") is True and o.get("last_validation_was_ok") is False)
+        return Sym(BOOL, z3.BoolVal(bool(ok)))
+    def make(ctx):
+        c = Contract("applications.CutplaceApp.__init__", setup,
+                returns=[Clause(c_init, "a-new-application-has-no-CID-no-files-no-validation-limit-and-has-seen-no-rejection", props=["C18", "C07"])], raises={}, expect=["return"], raises_only_props=["C18", "C10"])
+        return {"contract": c, "callees": {"builtin:logging.getLogger": lambda ex, st, fn, a, k: iter([(st, Opaque())])}}
+    return ProofUnit("applications.CutplaceApp.__init__", "CutplaceApp.__init__: initial state (all_validations_were_ok, validate_until None)", ["C18", "C07"], make, None)
